@@ -1,7 +1,17 @@
 -- REGENERATED on every run by /verif/check from the compiled /repo tree. Do not edit.
 namespace SdnsVerif.Gen.C09
 
+def add_holddown_from_first_seen : Bool := true
 def add_holddown_hours : Nat := 720
+def missing_holddown_from_first_seen : Bool := true
 def missing_holddown_hours : Nat := 2160
+def shape_both_writes_failed_clears_trust : Bool := true
+def shape_corrupt_tombstones_clear_trust : Bool := true
+def shape_markers_dropped_only_after_tomb_ok : Bool := true
+def shape_prefetch_publish_gated_on_prior : Bool := true
+def shape_tomb_write_before_state_write : Bool := true
+def shape_unreadable_tombstones_use_empty_map : Bool := true
+def state_file : String := "trust-anchor.db"
+def tombstone_file : String := "trust-anchor-tombstones.db"
 
 end SdnsVerif.Gen.C09
